@@ -15,6 +15,7 @@ package server
 // table; at quiescence the received list equals the expected list exactly.
 
 import (
+	"encoding/json"
 	"strconv"
 	"sort"
 	"fmt"
@@ -464,6 +465,7 @@ func checkC05(job *Job, res *Result) {
 	res.Bounds["configurations"] = len(cfgs)
 	if job.Shard == 0 && only == nil {
 		c05PolarCircle(job, res)
+		c05Outputs(job, res)
 	}
 }
 
@@ -534,5 +536,55 @@ func c05PolarCircle(job *Job, res *Result) {
 	})
 	if x.Err != "" || len(x.Crashes) > 0 {
 		res.Violate("C05/polar-circle:hang-or-crash", fmt.Sprint(x.Err, x.Crashes), nil)
+	}
+}
+
+// c05Outputs: whatever output form a fence is defined with, each message is one
+// JSON document carrying the object's id as a string (and a top-level distance
+// when DISTANCE is asked for).
+func c05Outputs(job *Job, res *Result) {
+	x := runExec(job, freezeAllBut(), func(x *Exec) {
+		in := x.Start("L", x.dir+"/L", 9001, nil)
+		c := x.Dial(in.Addr)
+		for oi, out := range [][]string{nil, {"IDS"}, {"DISTANCE"}, {"DISTANCE", "IDS"}, {"POINTS"}, {"BOUNDS"}, {"HASHES", "5"}, {"DISTANCE", "POINTS"}, {"OBJECTS"}} {
+			name := fmt.Sprintf("oc%d", oi)
+			key := fmt.Sprintf("ok%d", oi)
+			def := append(append([]string{"SETCHAN", name, "NEARBY", key, "FENCE"}, out...), "POINT", "5", "5", "10000")
+			if r := c.Do(def...); r.IsErr() {
+				res.Violate("C05/output-form:setchan", fmt.Sprintf("%v replied %s", def, r), nil)
+				continue
+			}
+			sub := x.Dial(in.Addr)
+			sub.Send(respCmd("SUBSCRIBE", name))
+			vsched.Quiesce()
+			recvPayloads(sub)
+			c.Do("SET", key, "c", "FIELD", "speed", "7", "POINT", "5.01", "5")
+			vsched.Quiesce()
+			msgs := recvPayloads(sub)
+			res.Evaluations++
+			res.DistinctS(fmt.Sprint("outputform", out))
+			if len(msgs) == 0 {
+				res.Violate("C05/output-form:missing", fmt.Sprintf("a fence defined with output %v published nothing for an object entering it", out), map[string]any{"output": out})
+			}
+			for _, m := range msgs {
+				var doc map[string]any
+				if err := json.Unmarshal([]byte(m), &doc); err != nil {
+					res.Violate("C05/output-form:not-json", fmt.Sprintf("fence output %v: %v: %s", out, err, vclip(m, 200)), map[string]any{"output": out})
+					continue
+				}
+				if id, ok := doc["id"].(string); !ok || id != "c" {
+					res.Violate("C05/output-form:id", fmt.Sprintf("fence output %v: the message does not carry the id as a string: %s", out, vclip(m, 240)), map[string]any{"output": out})
+				}
+				if len(out) > 0 && out[0] == "DISTANCE" {
+					if d, ok := doc["distance"].(float64); !ok || d < 1000 || d > 1200 {
+						res.Violate("C05/output-form:distance", fmt.Sprintf("fence output %v: no top-level distance of about 1112 m: %s", out, vclip(m, 240)), map[string]any{"output": out})
+					}
+				}
+			}
+			sub.c.Kill()
+		}
+	})
+	if x.Err != "" || len(x.Crashes) > 0 {
+		res.Violate("C05/output-form:hang-or-crash", fmt.Sprint(x.Err, x.Crashes), nil)
 	}
 }
